@@ -1,0 +1,113 @@
+//go:build verif
+
+package storage
+
+import (
+	"container/ring"
+	"regexp"
+	"sync"
+
+	"go.uber.org/zap"
+
+	"github.com/linkedin/Burrow/core/protocol"
+)
+
+// Verification hooks (build tag "verif" only).
+
+// VerifNewInMemory builds an InMemoryStorage with the given settings and cluster map, exactly as
+// Configure+Start would, but without starting the worker goroutines: requests are then executed
+// synchronously through VerifHandle.
+func VerifNewInMemory(app *protocol.ApplicationContext, intervals int, expireGroup, minDistance int64, allowlist, denylist string, clusters []string) *InMemoryStorage {
+	module := &InMemoryStorage{
+		App:         app,
+		Log:         zap.NewNop(),
+		name:        "verif",
+		intervals:   intervals,
+		numWorkers:  1,
+		expireGroup: expireGroup,
+		minDistance: minDistance,
+		queueDepth:  1,
+		offsets:     make(map[string]clusterOffsets),
+	}
+	if allowlist != "" {
+		module.groupAllowlist = regexp.MustCompile(allowlist)
+	}
+	if denylist != "" {
+		module.groupDenylist = regexp.MustCompile(denylist)
+	}
+	for _, cluster := range clusters {
+		module.offsets[cluster] = clusterOffsets{
+			broker:       make(map[string][]*ring.Ring),
+			consumer:     make(map[string]*consumerGroup),
+			brokerLock:   &sync.RWMutex{},
+			consumerLock: &sync.RWMutex{},
+		}
+	}
+	return module
+}
+
+// VerifHandle executes one storage request synchronously on the calling goroutine with the handler
+// that requestWorker would select for its type. Returns false for an unknown request type.
+func (module *InMemoryStorage) VerifHandle(r *protocol.StorageRequest) bool {
+	logger := module.Log
+	switch r.RequestType {
+	case protocol.StorageSetBrokerOffset:
+		module.addBrokerOffset(r, logger)
+	case protocol.StorageSetConsumerOffset:
+		module.addConsumerOffset(r, logger)
+	case protocol.StorageSetConsumerOwner:
+		module.addConsumerOwner(r, logger)
+	case protocol.StorageSetDeleteTopic:
+		module.deleteTopic(r, logger)
+	case protocol.StorageSetDeleteGroup:
+		module.deleteGroup(r, logger)
+	case protocol.StorageFetchClusters:
+		module.fetchClusterList(r, logger)
+	case protocol.StorageFetchConsumers:
+		module.fetchConsumerList(r, logger)
+	case protocol.StorageFetchTopics:
+		module.fetchTopicList(r, logger)
+	case protocol.StorageFetchConsumer:
+		module.fetchConsumer(r, logger)
+	case protocol.StorageFetchTopic:
+		module.fetchTopic(r, logger)
+	case protocol.StorageClearConsumerOwners:
+		module.clearConsumerOwners(r, logger)
+	case protocol.StorageFetchConsumersForTopic:
+		module.fetchConsumersForTopicList(r, logger)
+	default:
+		return false
+	}
+	return true
+}
+
+// VerifAcceptConsumerGroup exposes acceptConsumerGroup.
+func (module *InMemoryStorage) VerifAcceptConsumerGroup(group string) bool {
+	return module.acceptConsumerGroup(group)
+}
+
+// VerifShiftTimes moves every stored commit timestamp and every group's lastCommit back by deltaMs
+// milliseconds, which is observationally the same as the wall clock advancing by deltaMs.
+func (module *InMemoryStorage) VerifShiftTimes(deltaMs int64) {
+	for _, clusterMap := range module.offsets {
+		clusterMap.consumerLock.Lock()
+		for _, group := range clusterMap.consumer {
+			group.lock.Lock()
+			group.lastCommit -= deltaMs
+			for _, partitions := range group.topics {
+				for _, partition := range partitions {
+					if partition.offsets == nil {
+						continue
+					}
+					partition.offsets.Do(func(item interface{}) {
+						if item != nil {
+							item.(*protocol.ConsumerOffset).Timestamp -= deltaMs
+						}
+					})
+				}
+			}
+			group.lock.Unlock()
+		}
+		clusterMap.consumerLock.Unlock()
+	}
+}
